@@ -5,6 +5,7 @@ from qlib.fx import FX
 from qlib.model import AnalysisBroken
 from qlib.report import Rule
 
+OWN_CONFIG_SWEEP = True   # sweeps its configurations itself
 META = {
     "explanation": "E-FX effect analysis over the instantiation view (the functions clang instantiates for "
                    "Template::Render over Value/StringStream of each character width): memory regions are tracked as "
